@@ -133,7 +133,9 @@ class FlexJobOffsetContext(TwoPhaseWithBarrierContext):
 def frequency_align_collect(event: TraceEvent, context: AbstractContext) -> list[TraceEvent]:
     assert isinstance(context, FlexJobOffsetContext)
 
-    context.collect(event)
+    # events without a job (metadata, counters, flows) take no part in the per-job alignment
+    if "args" in event and "jobhash" in event["args"]:
+        context.collect(event)
     # returning event here, next stage will happen after barrier
     return [event]
 
@@ -141,4 +143,6 @@ def frequency_align_collect(event: TraceEvent, context: AbstractContext) -> list
 def frequency_align_apply(event: TraceEvent, context: AbstractContext) -> list[TraceEvent]:
     assert isinstance(context, FlexJobOffsetContext)
 
+    if "args" not in event or "jobhash" not in event["args"]:
+        return [event]
     return [context.apply(event)]
